@@ -546,8 +546,12 @@ func (c *Client) Do(req *Request, resp *Response) error {
 	}
 
 	c.mOnce.Do(func() {
+		// ConnsCount, IdleConnsCount, CloseIdleConnections and mCleaner read
+		// the maps under mLock without going through mOnce.
+		c.mLock.Lock()
 		c.m = make(map[string]*HostClient)
 		c.ms = make(map[string]*HostClient)
+		c.mLock.Unlock()
 	})
 	hc, err := c.hostClient(host, isTLS)
 	if err != nil {
